@@ -43,6 +43,8 @@ def gen_case(rnd, tier, index):
             knobs[feat] = True
     spec = wbgen.generate(rnd, knobs)
     cfg = c01.draw_cfg(rnd, spec, tier)
+    if cfg.get('origin') != 'xlsx' and rnd.random() < 0.15:
+        wbgen.add_table_gadget(rnd, spec)     # structured references
     n_ops = rnd.choice((3, 5, 8, 12, 20))
     ops = c01.gen_ops(rnd, spec, cfg, n_ops,
                       restart_rate=rnd.choice((0, 0.05, 0.1)),
